@@ -2,14 +2,41 @@
 # /verif/check.sh <property id> [quick|thorough]
 # Rebuilds nothing but the SSA of /repo's current working tree (the engine binary is built by setup_cmd;
 # it is rebuilt here if missing or older than its sources).
+# A check whose config says "shards": N runs as N processes over disjoint parts of its function sweep; their
+# evidence files are merged into evidence/<id>.json.
 export GOFLAGS=-mod=mod GOPROXY=off GOSUMDB=off GOTOOLCHAIN=local
 cd /verif || exit 2
 if [ ! -x bin/govc ] || [ -n "$(find engine -name '*.go' -newer bin/govc -not -path 'engine/vendor/*' 2>/dev/null | head -1)" ]; then
   (cd engine && GOFLAGS=-mod=vendor go build -o /verif/bin/govc .) || exit 2
 fi
 id="$1"; tier="${2:-${VERIF_TIER:-quick}}"
+root="${GOVC_VERIF:-/verif}"
+shards="$(python3 -c "import json,sys;print(int(json.load(open('$root/checks/$id.json')).get('shards',1)))" 2>/dev/null || echo 1)"
 work="$(mktemp -d /tmp/govc-$id-XXXXXX)"
-GOVC_WORK="$work" ./bin/govc check "$id" "$tier"
-rc=$?
+if [ "$shards" -le 1 ]; then
+  GOVC_WORK="$work" ./bin/govc check "$id" "$tier"
+  rc=$?
+  rm -rf "$work"
+  exit $rc
+fi
+rc=0
+i=0
+pids=""
+while [ $i -lt $shards ]; do
+  ( GOVC_SHARD="$i/$shards" GOVC_WORK="$work/s$i" ./bin/govc check "$id" "$tier" > "$work/out.$i" 2>&1; echo $? > "$work/rc.$i" ) &
+  pids="$pids $!"
+  i=$((i+1))
+done
+wait $pids
+i=0
+while [ $i -lt $shards ]; do
+  r="$(cat "$work/rc.$i" 2>/dev/null || echo 2)"
+  grep -E "^(VIOLATION|KNOWN-FINDING)" "$work/out.$i"
+  if [ "$r" -ne 0 ] && [ "$r" -ne 1 ]; then cat "$work/out.$i"; rc=2; fi
+  if [ "$r" -eq 1 ] && [ $rc -eq 0 ]; then rc=1; fi
+  i=$((i+1))
+done
+python3 /verif/merge_evidence.py "$root" "$id" "$shards" "$tier"; mrc=$?
+if [ $mrc -eq 1 ] && [ $rc -eq 0 ]; then rc=1; elif [ $mrc -gt 1 ]; then rc=2; fi
 rm -rf "$work"
 exit $rc
